@@ -42,6 +42,9 @@ func freeRunV1(t *testing.T, rnd *rand.Rand, run int) (map[string]any, []obs) {
 	if err != nil {
 		t.Fatalf("v1.New: %v", err)
 	}
+	for p := range inputs { // the options map belongs to the caller again once New has returned: reuse it
+		delete(inputs, p)
+	}
 	ending := []string{"graceful", "graceful", "stop", "cancel"}[rnd.Intn(4)]
 	quit := make(chan struct{}) // closed when the discipline has terminated: unblocks producers and workers
 	var wg sync.WaitGroup
@@ -238,6 +241,9 @@ func freeRunSimple(t *testing.T, rnd *rand.Rand, run int, ver int) (map[string]a
 			t.Fatalf("simple.New: %v", err)
 		}
 		errCh = s.Err()
+	}
+	for p := range inputs { // the caller's map is the caller's again
+		delete(inputs, p)
 	}
 	quit := make(chan struct{})
 	var wg sync.WaitGroup
